@@ -191,6 +191,37 @@ pub fn run(args: &Args, prop: &str) {
         STATES.with(|s| s.borrow_mut().extend(crate::props::simrun::STATES.with(|x| x.borrow().clone())));
         bounds.push(json!({"family": "n<=4(5) with <=2 rejecting/conditional commands, all histories (heads and command set only)", "universes": dags.len(), "executions": ex}));
     }
+    if prop == "C01" && flavour_s {
+        // Convergence must also survive interleaved transactions and a local action on the busy
+        // replica: whatever ends up committed must show the reference state of its command set.
+        let o = UniverseOpts { n_min: 2, n_max: if args.tier == Tier::Thorough { 5 } else { 4 }, allow_merges: true, prios: vec![0], max_finalize: 0, ordered_finalize_only: true, full_rank_perms_upto: 0, merge_ranks: vec![MergeRank::Hash] };
+        let mut dags = Vec::new();
+        let mut seen = std::collections::BTreeSet::new();
+        for_each_universe(&o, |d| {
+            let shape: Vec<Vec<usize>> = d.nodes.iter().map(|n| n.parents.clone()).collect();
+            if seen.insert(shape) {
+                dags.push(d.clone())
+            }
+        });
+        let so = crate::sim::SimOracles { outcomes: false, state: true, effects: false, monotone: false };
+        let ex = crate::props::simrun::run_all(&mut rep, "interleaved", &dags, so, false, |c, _| matches!(c, "facts" | "heads" | "hello" | "cmdset"), |d, f| crate::props::trx::cases(d, 2, true, true, f));
+        STATES.with(|s| s.borrow_mut().extend(crate::props::simrun::STATES.with(|x| x.borrow().clone())));
+        bounds.push(json!({"family": "2 interleaved transactions (split adds) + a local action, all interleavings: committed state == reference of the committed command set", "universes": dags.len(), "executions": ex}));
+    }
+    if prop == "C03" && flavour_s {
+        // Braids that follow a braid aborted by ParallelFinalize (same RuntimeBuffers): facts only.
+        let o = UniverseOpts { n_min: 3, n_max: if args.tier == Tier::Thorough { 5 } else { 4 }, allow_merges: true, prios: vec![0, 1], max_finalize: 3, ordered_finalize_only: false, full_rank_perms_upto: 0, merge_ranks: vec![MergeRank::Hash] };
+        let mut dags = Vec::new();
+        for_each_universe(&o, |d| {
+            if d.nodes.iter().filter(|n| n.kind == rtlib::dag::Kind::Finalize).count() >= 2 {
+                dags.push(d.clone())
+            }
+        });
+        let so = crate::sim::SimOracles { outcomes: false, state: true, effects: false, monotone: false };
+        let ex = crate::props::simrun::run_all(&mut rep, "after-aborted-braid", &dags, so, true, |c, _| matches!(c, "facts"), |d, f| crate::props::finalize::singleton_histories(d, &[0, 2], true, f));
+        STATES.with(|s| s.borrow_mut().extend(crate::props::simrun::STATES.with(|x| x.borrow().clone())));
+        bounds.push(json!({"family": "histories in which a braid is aborted by ParallelFinalize and later braids reuse the same buffers (facts only)", "universes": dags.len(), "executions": ex}));
+    }
     let skip_small = (prop == "C02" || prop == "C03") && !flavour_s;
     let mut per_class: BTreeMap<String, u32> = BTreeMap::new();
     for fam in families(args.tier, flavour_s, prop).into_iter().filter(|_| !skip_small) {
